@@ -16,7 +16,8 @@ fine-grained schedules and the C01/C10/C12 checks the closed-form schedule compa
 concrete failing input (C07/A2 and C11/B2, formerly `n` at the quick tier, included).  The rows of
 the third wave were produced by the machinery as committed with them (mid-run inspection of the
 read-only API and the timeout_effect oracle were added because of C03/A3 and C08/A3, see DESIGN.md
-section 9.1).
+section 9.1).  Fourth wave, first run: 17 of 20 with a failing input, C08/B4 and C09/A4 as correspondence
+breaks, C05/B4 missed; the rows show the state after the three additions described in DESIGN.md section 9.1.
 
 ## Harmless rewrites (`harmless/H<k><A|B>/`)
 
@@ -35,7 +36,7 @@ def main():
     mpath = os.path.join(VERIF, "seeded", "MATRIX.md")
     if os.path.exists(mpath):
         for line in open(mpath):
-            m = re.match(r"\| (C\d\d)/([AB][23]?) \| (.*) \|\s*$", line)
+            m = re.match(r"\| (C\d\d)/([AB][234]?) \| (.*) \|\s*$", line)
             if m and "not evaluated" not in line:
                 cells = [c.strip() for c in m.group(3).split("|")]
                 if len(cells) == len(PROPS):
@@ -43,11 +44,11 @@ def main():
                                                       for q, c in zip(PROPS, cells)}
     for path in sys.argv[1:]:
         for line in open(path):
-            m = re.match(r"== (C\d\d)/([AB][23]?) ->(.*)", line)
+            m = re.match(r"== (C\d\d)/([AB][234]?) ->(.*)", line)
             if m:
                 rows[(m.group(1), m.group(2))] = dict(x.split(":") for x in m.group(3).split())
     out = ["# Seeded changes: which check reports what", "",
-           "Each change was written by a fresh sub-agent that saw only the text of one property and a scratch (variants A, B: first wave; A2, B2: second wave, asked for subtle changes; A3, B3: third wave, changes disguised as improvements -- optimisations, modernisations, refactorings, robustness tweaks)",
+           "Each change was written by a fresh sub-agent that saw only the text of one property and a scratch (variants A, B: first wave; A2, B2: second wave, asked for subtle changes; A3, B3: third wave, changes disguised as improvements -- optimisations, modernisations, refactorings, robustness tweaks; A4, B4: fourth wave, a blind test of the final machinery on ten properties, only the check of the property itself was run)",
            "worktree of /repo.  Confirmed here for every one: `demo.py` exits 0 on the unchanged tree and 1 on the",
            "changed tree, and the repository's test suite still passes with the change applied (the timing test",
            "test_nesting1, flaky under load and dropped from the pinned baseline, and test_window under heavy",
@@ -58,7 +59,7 @@ def main():
            "proof obligation no longer checks), . = the check stays silent.  Quick tier, seed 0.", "",
            "| seed | " + " | ".join(p[1:] for p in PROPS) + " |", "|---|" + "---|" * len(PROPS)]
     for p in PROPS:
-        for v in ("A", "B", "A2", "B2", "A3", "B3"):
+        for v in ("A", "B", "A2", "B2", "A3", "B3", "A4", "B4"):
             d = os.path.join(VERIF, "seeded", p, v)
             if not os.path.isdir(d):
                 continue
@@ -85,7 +86,9 @@ def main():
                 "own_property_check": (r or {}).get(p),
             }
             json.dump(meta, open(os.path.join(d, "meta.json"), "w"), indent=1)
-            if r:
+            if r and len(r) < len(PROPS):
+                out.append("| %s/%s | (own check only) %s: %s |" % (p, v, p, {"VIOL": "**V**", "nofail": "n", "ok": "."}[r.get(p, "ok")]))
+            elif r:
                 cells = [{"VIOL": "**V**", "nofail": "n", "ok": "."}[r.get(q, "ok")] for q in PROPS]
                 out.append("| %s/%s | " % (p, v) + " | ".join(cells) + " |")
             else:
